@@ -29,13 +29,14 @@ import (
 const caseTimeout = 120 * time.Second
 
 type supervisor struct {
-	root   string
-	repo   string
-	cmd    *exec.Cmd
-	in     *bufio.Writer
-	inPipe *os.File
-	lines  chan string // lines from the child; closed when it goes away
-	starts int
+	root    string
+	repo    string
+	cmd     *exec.Cmd
+	in      *bufio.Writer
+	inPipe  *os.File
+	lines   chan string // lines from the child; closed when it goes away
+	starts  int
+	errFile *os.File
 }
 
 func newSupervisor() *supervisor {
@@ -88,6 +89,10 @@ func (s *supervisor) start() {
 	cmd.Stdin = inR
 	cmd.Stdout = os.Stderr // whatever the engine prints must not end up in the protocol or in our stdout
 	cmd.Stderr = os.Stderr
+	if f, err := os.Create(filepath.Join(s.root, "child.stderr")); err == nil {
+		cmd.Stderr = f // kept only when the child hangs (goroutine dump, see exec)
+		s.errFile = f
+	}
 	cmd.ExtraFiles = []*os.File{outW} // fd 3 in the child
 	must(cmd.Start())
 	inR.Close()
@@ -137,13 +142,40 @@ func (s *supervisor) stop() string {
 	return how
 }
 
+// keepDump saves the stderr of a hung child under <VERIF_ROOT>/out/ for diagnosis.
+func (s *supervisor) keepDump(caseID string) {
+	root := os.Getenv("VERIF_ROOT")
+	if root == "" {
+		root = os.TempDir()
+	}
+	b, err := os.ReadFile(filepath.Join(s.root, "child.stderr"))
+	if err != nil {
+		return
+	}
+	dir := filepath.Join(root, "out")
+	os.MkdirAll(dir, 0o755)
+	os.WriteFile(filepath.Join(dir, fmt.Sprintf("c08-hang-%s-%d.log", caseID, time.Now().Unix())), b, 0o644)
+}
+
 func (s *supervisor) shutdown() {
 	s.stop()
 	os.RemoveAll(s.root)
 }
 
-// exec runs one case in the child; it always returns one answer per op line.
+// exec runs one case in the child; it always returns one answer per op line. A case during which the
+// child fell silent for caseTimeout is run once more on a fresh child (the goroutine dump of the hung
+// one is kept under out/): a hang that the case really causes shows again and is reported, a one-off
+// stall of the machine is not turned into a verdict.
 func (s *supervisor) exec(c proto.Case, o *proto.Out) []string {
+	outs := s.execOnce(c, o)
+	if len(outs) > 0 && outs[len(outs)-1] == "child-died:timeout" {
+		o.Count("child-timeout-retried")
+		outs = s.execOnce(c, o)
+	}
+	return outs
+}
+
+func (s *supervisor) execOnce(c proto.Case, o *proto.Out) []string {
 	if s.cmd == nil {
 		s.start()
 	}
@@ -184,8 +216,12 @@ loop:
 				restart = true
 			}
 		case <-deadline:
+			// ask the Go runtime of the child for a goroutine dump before killing it, and keep it
+			s.cmd.Process.Signal(syscall.SIGQUIT)
+			time.Sleep(2 * time.Second)
 			s.cmd.Process.Kill()
 			s.stop()
+			s.keepDump(c.ID)
 			died = "child-died:timeout"
 			break loop
 		}
